@@ -412,6 +412,37 @@ func runC18(r *vk.Run) {
 	})
 	r.Require("e2e_runs_compared", 30)
 
+	// the failure paths of the concurrent opening run under the race detector as well: several
+	// containers refuse their log in the same query (the ungated requests fail at the same moment)
+	r.Phase("multifail", r.N(3, 40), func(c *vk.Case) {
+		for n := 2; n <= 5; n++ {
+			inv := c14Inventory(c.Rng, n, 3)
+			for rep := 0; rep < c.R.N(15, 40); rep++ {
+				fd := newFakeDocker(inv)
+				failing := 0
+				for i, fc := range fd.Containers {
+					if i < 2 || c.Rng.Bool() {
+						fc.LogsErr = errC14
+						failing++
+					}
+				}
+				_, err := evalRaw(fd, `{container=~".+"}`, EvalP{Start: c14T0, End: c14T0 + 10e9, Step: 2 * time.Second, Limit: -1})
+				c.Eval(1)
+				if err == nil {
+					c.Fail("", fmt.Sprintf("%d of %d containers refused their log but the query succeeded", failing, n), map[string]any{"inventory": inv})
+					return
+				}
+				op, cl, _, _ := fd.Ledger()
+				if op != cl {
+					c.Fail("", fmt.Sprintf("%d of %d opens failed: %d readers opened, %d closed", failing, n, op, cl), map[string]any{"inventory": inv})
+					return
+				}
+				c.Count("multifail_queries", 1)
+			}
+		}
+	})
+	r.Require("multifail_queries", 100)
+
 	blocks, distinct := collectRaceReports("C18")
 	r.SetExtra("race_report_blocks", blocks)
 	r.SetExtra("race_reports_distinct", len(distinct))
